@@ -61,6 +61,30 @@ theorem C07_change_active_mode_stored_source_writes_stored_mode :
       simp [changeActiveStored, find, valueSet, H.alloc, H.set, mergeE, filterE, afterE], by
       simp [changeActive, find, valueSet, H.alloc, H.set, mergeE, filterE, afterE]⟩
 
+/-- why instances with default settings never showed it: before fix 5105353 the frame held exactly as far as the
+configured Merge leaves its source alone (no writable fields, or the empty mask) — for every such merge function,
+after-interceptor, heap, modes collection and id, the stored-source shape writes no message that existed before -/
+theorem C07_change_active_mode_stored_source_partial {M : Type} (merge : M → M → M × M) (after : M → M → M) (h : H M)
+    (modes : Store) (active : Nat) (id : String) (hsrc : ∀ d s, (merge d s).2 = s) :
+    ∀ x, x < h.next → (changeActiveStored merge after h modes active id).heap.cells x = h.cells x := by
+  intro x hx
+  have h1 : x ≠ h.next := Nat.ne_of_lt hx
+  cases hf : find modes id with
+  | none => simp [changeActiveStored, hf]
+  | some r =>
+    by_cases hxr : x = r
+    · subst hxr
+      simp [changeActiveStored, hf, valueSet, H.alloc, H.set, h1, hsrc]
+    · simp [changeActiveStored, hf, valueSet, H.alloc, H.set, h1, hxr]
+
+/-- the hypothesis of the partial theorem holds for the resource as the package configures it (no writable fields)
+and for the empty mask, and fails for a proper mask -/
+example : (∀ d s, (mergeE none d s).2 = s) ∧ (∀ d s, (mergeE (some ⟨false, false, false, false⟩) d s).2 = s) ∧
+    ¬ (∀ d s, (mergeE (some ⟨true, true, false, false⟩) d s).2 = s) :=
+  ⟨fun _ _ => rfl, fun _ _ => rfl, fun hall => by
+    have := hall ⟨"", "", "", 0⟩ ⟨"a", "A", "desc", 0⟩
+    simp [mergeE, filterE] at this⟩
+
 /-- non-vacuity: a reachable state (one stored mode, the package's empty initial active mode as a message of its own)
 that satisfies the hypotheses of `C07_change_active_mode_same_result` and on which the call succeeds -/
 example : ∃ (h : H EMode) (modes : Store) (active : Nat), active < h.next ∧ find modes "a" = some 1 ∧ 1 < h.next ∧ 1 ≠ active ∧
